@@ -1,5 +1,6 @@
 import re
 
+import vlib
 from vlib import Prop
 from props.c16 import hx
 
@@ -18,7 +19,7 @@ NOT_NAMES = {"host", "connection", "keep-alive", "proxy-connection", "transfer-e
 # long values: the Lean driver's cost is quadratic in the length of a value (the model's Huffman / string path over
 # `List Nat`: 1 000 bytes 0.1-0.6 s, 4 096 bytes 0.5-9 s, 16 384 printable bytes 6.5 s, 16 384 high bytes > 60 s), so
 # the quick tier stops at 4 096 bytes (printable from 2 048 on) and the thorough tier at 8 192 printable bytes;
-# 65 536 / 70 000 bytes were run through the real code alone (delivered identically, see DESIGN)
+# 16 384 / 65 535 / 65 536 / 70 000 bytes go through the real code alone, checked in Python (`extra`, impl-only probes)
 LONG_VALUES = {"quick": [1000, 1000, 1500, 2048, 4096], "thorough": [1000, 1500, 2048, 4096, 8192]}
 VALUE_BYTES = [0x09] + list(range(0x20, 0x7f)) + list(range(0x80, 0x100))
 PRINTABLE = list(range(0x20, 0x7f))
@@ -600,6 +601,72 @@ class C01(Prop):
         big = tier == "thorough"
         self.tier = tier
         return [self.one_case(rng, big) for _ in range(12000 if big else 2500)] + [self.many_fields_case()]
+
+    LONG_PROBES = [16384, 65535, 65536, 70000]
+
+    def long_value_probes(self, rng):
+        """[(case line, expected projection)]: one exchange per length n whose request head, request trailers,
+        response head and response trailers each carry a value of n bytes (any legal bytes, high bytes included,
+        SP / HTAB at both ends) among small fields; the 65 536 line also sends a 64 KiB request body in 20 pieces.
+        The expectation is the property's demand written out for these lines: the same values byte for byte in the
+        per-name order, body = concatenation, trailers, one clean end and nothing else."""
+        def val(n):
+            mid = bytes(rng.choices(VALUE_BYTES, k=n - 4))
+            return (rng.choice([b" \t", b"\t ", b"  ", b"\t\t"]) + mid + rng.choice([b" \t", b"\t ", b"  ", b"\t\t"])).hex()
+
+        def render(fields):
+            return ";".join("%s=%s" % kv for kv in sorted(fields, key=lambda kv: kv[0]))   # stable: per-name order kept
+
+        out = []
+        for n in self.LONG_PROBES:
+            rh = [("x-a", "61"), ("x.long", val(n)), ("accept", "2a2f2a"), ("x-a", "2062")]
+            rt = [("t~1", val(n)), ("x-0", "09")]
+            sh = [("etag", "2261"), ("big|value", val(n))]
+            stl = [("x-b", val(n))]
+            if n == 65536:
+                cuts = sorted(rng.randrange(0, 65537) for _ in range(19))
+                pieces = [rng.randbytes(b - a).hex() or "-" for a, b in zip([0] + cuts, cuts + [65536])]
+            else:
+                pieces = ["0102", "-", "03"]
+            body = "".join(x for x in pieces if x != "-")
+            raw = lambda fs: ";".join("%s=%s" % kv for kv in fs)
+            ops = [">>", "<<", "s.conn.AL", "c.drv.W", "c.snd.R:POST:%s:%s" % (hexs("https://a.b/up"), raw(rh))]
+            ops += ["c.q0.sd:%s" % x for x in pieces] + ["c.q0.st:%s" % raw(rt), "c.q0.fi"]
+            # relayed in 1..7-byte pieces on the shortest line only (time), whole on the others
+            ops += [">~%d" % rng.randrange(1, 99999) if n == 16384 else ">>", "s.q0.res", "s.q0.rm"]
+            ops += ["s.q0.sr:200:%s" % raw(sh), "s.q0.sd:0405", "s.q0.st:%s" % raw(stl), "s.q0.fi"]
+            ops += ["<~%d" % rng.randrange(1, 99999) if n == 16384 else "<<", "c.q0.rr", "c.q0.rm"]
+            line = "e2e g%d,seed=%d g%d %s" % (rng.randrange(2), rng.randrange(1000), rng.randrange(2), " ".join(ops))
+            want = ("s.q0.res=ok:POST:%s:-:%s s.q0.rm=body:%s:trailers:%s c.q0.rr=ok:200:%s c.q0.rm=body:0405:trailers:%s "
+                    "c.pending=- c.closed=- c.rst=- c.stop=- s.pending=- s.closed=- s.rst=- s.stop=- extra=-"
+                    % (hexs("https://a.b/up"), render(rh), body, render(rt), render(sh), render(stl)))
+            out.append((line, want))
+        return out
+
+    def extra(self, tier, rng, ctx):
+        """IMPL-ONLY probes: header values of 16 384 / 65 535 / 65 536 / 70 000 bytes.  The Lean driver's cost is
+        quadratic in the length of a value (16 384 high bytes: more than a minute), so these lines do not go through
+        `h3drv`; the real endpoints run them and the projection of what happened is compared with the property's
+        demand computed here (`long_value_probes`)."""
+        probes = self.long_value_probes(rng)
+        rc, outs, err = vlib.run_lines(vlib.RUN, [l for l, _ in probes], timeout=120)
+        if rc != 0 or len(outs) != len(probes):
+            return [("broken", "long values: the harness answered %d of %d probe lines (rc=%s %s)"
+                     % (len(outs), len(probes), rc, err[-200:]), {})]
+        res = []
+        for n, (line, want), raw in zip(self.LONG_PROBES, probes, outs):
+            got = self.project(line, raw)
+            if got != want:
+                k = next((i for i, (a, b) in enumerate(zip(got, want)) if a != b), min(len(got), len(want)))
+                res.append(("broken", "long values: a %d-byte value is not delivered identically / something else happened: "
+                            "projection differs from the demand at character %d: got `…%s…` want `…%s…` (line: %s…)"
+                            % (n, k, got[max(0, k - 60):k + 60], want[max(0, k - 60):k + 60], line[:200]), {}))
+        if not res:
+            res.append(("note", "long values: field values of %s bytes (any legal bytes, SP / HTAB at both ends) in request "
+                        "head, request trailers, response head and response trailers, one line with a 64 KiB body in 20 "
+                        "pieces: delivered identically, clean end, nothing else (impl-only: the Lean driver is quadratic in "
+                        "the value length)" % " / ".join(str(n) for n in self.LONG_PROBES), {}))
+        return res
 
     def shrink_candidates(self, line):
         """Smaller lines that are still complete scenarios (a line that merely leaves something pending — a
